@@ -247,6 +247,9 @@ func (e *Exec) applyContractFull(con *Contract, fn *ssa.Function, sig *types.Sig
 	if con.Fatal {
 		e.assume("false")
 	}
+	if con.Functional != "" && len(results) == 1 && len(results[0].S) == 1 {
+		e.assume("(= " + results[0].S[0] + " " + e.functionalTerm(pre, con.Functional, args[:nargs], slotsOf(results[0].T)[0].Sort) + ")")
+	}
 	for _, en := range con.Ensures {
 		if !en.activeFor(e.Prop) {
 			continue
@@ -439,10 +442,13 @@ func (e *Exec) invoke(c *ssa.CallCommon, recv Value, args []Value, guard string)
 	for i, im := range impls {
 		key := FuncKey(im.fn)
 		con := e.CS.ByKey[key]
-		if con == nil {
-			panic(missingContract{key, e.Key})
-		}
 		cond := tags[i]
+		if con == nil {
+			// an implementation without a contract: this call site must exclude it
+			e.oblige("pre", "dyn-excluded@"+shortKey(key), "the dynamic type "+typeKey(im.dyn)+" (no contract) cannot occur here", nil, guard, "(not "+cond+")")
+			e.assume("(not " + cond + ")")
+			continue
+		}
 		g := cond
 		if guard != "" && guard != "true" {
 			g = "(and " + guard + " " + cond + ")"
@@ -460,6 +466,9 @@ func (e *Exec) invoke(c *ssa.CallCommon, recv Value, args []Value, guard string)
 		r := e.applyContractFn(con, im.fn, append([]Value{rv}, args...), 1+len(args), g, "[case="+typeKey(im.dyn)+"]")
 		results = append(results, r)
 		conds = append(conds, cond)
+	}
+	if len(results) == 0 {
+		unsupportedf("no implementation of %s has a contract", ikey)
 	}
 	m := mergeValues(conds, results)
 	e.nameSlots(&m, "dyn")
@@ -696,4 +705,29 @@ func (e *Exec) nameSlots(v *Value, prefix string) {
 			v.S[i] = e.define(prefix, sl[i].Sort, v.S[i])
 		}
 	}
+}
+
+// functionalTerm builds NAME(args...) for a contract marked "functional": scalars contribute their
+// slots, slices their content array and length.
+func (e *Exec) functionalTerm(s *State, name string, args []Value, resSort string) string {
+	var terms, sorts []string
+	for _, a := range args {
+		if sl, ok := a.T.Underlying().(*types.Slice); ok && len(slotsOf(sl.Elem())) == 1 {
+			sd := slotsOf(sl.Elem())[0]
+			arr := e.compTerm(s, elemComp(sl.Elem(), sd.Path), "(Array Int (Array Int "+sd.Sort+"))")
+			terms = append(terms, "(select "+arr+" "+a.S[0]+")", a.S[1])
+			sorts = append(sorts, "(Array Int "+sd.Sort+")", "Int")
+			continue
+		}
+		for i, sd := range slotsOf(a.T) {
+			terms = append(terms, a.S[i])
+			sorts = append(sorts, sd.Sort)
+		}
+	}
+	fn := "fn!" + sanitize(name)
+	if !e.vc.declared[fn] && !e.discovery {
+		e.vc.declared[fn] = true
+		e.vc.add("(declare-fun " + fn + " (" + strings.Join(sorts, " ") + ") " + resSort + ")")
+	}
+	return "(" + fn + " " + strings.Join(terms, " ") + ")"
 }
